@@ -6,6 +6,8 @@ import PyaModel.Generated.ClassTable
 bounds : `(L <ty>)` lower | `(U <ty>)` upper | `(O <ty>*)` IsOneOf | `(R (<bound>*) …)` OrBound
 in : `resolve <bound>*`         resolve_bounds_map for one type variable (de-dup, then solve)
      `solve <bound>*`           solve without the de-dup
+     `solvecall (<bound>*) …`   the call-level step: one node per contribution (parameter / leaf); unify, solve once;
+                                 the report of the union, then ` leaves=<ok bit per contribution> call=<callOk>`
      `d15 <bound>*`             every exception class of the de-duplicated list (incl. the cubic one)
      `aresolve (M <row>*) <bound>*` / `ad15 (M …) …`   the same over a synthetic class table:
                                  row e, column a of the 0/1 matrix = `typed e` accepts `typed a`
@@ -87,6 +89,13 @@ def showBounds? : Option (List Bound) → String
 
 def handle (line : String) : String :=
   match readSexps line with
+  | some (.atom "solvecall" :: gs) =>
+    -- one node per contribution (parameter / leaf), in order: `solvecall ((L …) (O …)) ((L …))`
+    match toBoundLL gs with
+    | some gs =>
+      let leaves := String.join (gs.map fun g => b2s (resolve (leCa liveTable) joinU g).isOk)
+      report liveTable true (unifyBounds gs) ++ s!" leaves={if leaves.isEmpty then "-" else leaves} call={b2s (callOk (leCa liveTable) joinU gs)}"
+    | none => "bad-op"
   | some (.atom "resolve" :: bs) =>
     match toBoundL bs with
     | some bs => report liveTable true bs
